@@ -166,6 +166,22 @@ int main(int argc, char** argv) {
     // padding: regenerate deterministic pads here so build_table and the driver agree
     std::vector<double> pads; { int ps = r.range(0, 3); for (int i = 0; i < 61; i++) pads.push_back(ps == 0 ? std::numeric_limits<double>::quiet_NaN() : ps == 1 ? r.unit() * 200 - 100 : ps == 2 ? (r.coin() ? INFINITY : -INFINITY) : 0.0); }
     Table t; build_table(t, g.ord, g.kn, g.coef, &pads);
+    { // the extents are metadata (read verbatim from an EXTENTS HDU, moved by convolve): lookup and evaluation are defined by the
+      // knots alone and must not depend on them, so they are set to something else than the fully supported range in most tables
+      int es = r.range(0, 6); stats["extents_style_" + std::to_string(es)]++;
+      for (uint32_t d = 0; d < t.ndim; d++) {
+        const std::vector<double>& k = g.kn[d]; double lo = k[g.ord[d]], hi = k[t.naxes[d]], first = k.front(), last = k.back();
+        switch (es) {
+          case 0: break;                                                                          // the fully supported range
+          case 1: t.extents[d][0] = lo + (hi - lo) * 0.25; t.extents[d][1] = hi - (hi - lo) * 0.25; break;   // narrower
+          case 2: t.extents[d][0] = first; t.extents[d][1] = last; break;                         // the whole knot range
+          case 3: t.extents[d][0] = first - 10 - std::fabs(first); t.extents[d][1] = last + 10 + std::fabs(last); break;  // beyond the knots
+          case 4: t.extents[d][0] = hi; t.extents[d][1] = lo; break;                              // reversed
+          case 5: t.extents[d][0] = std::numeric_limits<double>::quiet_NaN(); t.extents[d][1] = std::numeric_limits<double>::quiet_NaN(); break;
+          default: t.extents[d][0] = -INFINITY; t.extents[d][1] = r.coin() ? INFINITY : lo; break;
+        }
+      }
+    }
     emit_table(t);
     uint32_t nd = t.ndim;
     struct splinetable ct; ct.data = &t;
